@@ -42,6 +42,7 @@ def ifaceOf (w : String) : List String :=
 inductive Ev
   | hook (m : String) (client : String)   -- hook method m invoked; client ∈ {"inner","other"}
   | inner (m : String)                    -- method m of the innermost (real) client invoked
+  | hookAt (lvl : Nat) (m : String) (client : String)  -- stacked hooks: hook of level lvl (1 = innermost)
   deriving DecidableEq, Repr
 
 inductive Ret
@@ -134,6 +135,7 @@ def follow : String → List String → List Ev → Option (String × List Ev)
 def evStr : Ev → String
   | .hook m c => "hook:" ++ m ++ "(" ++ c ++ ")"
   | .inner m => "inner:" ++ m
+  | .hookAt l m c => "hook@" ++ toString l ++ ":" ++ m ++ "(" ++ c ++ ")"
 
 def retStr : Ret → String
   | .fromHook => "hook"
@@ -153,6 +155,66 @@ def answer (path : List String) (m : String) (fwd : Bool) : String :=
     if (ifaceOf w).contains m then
       let (evs, ret) := call w m fwd
       "log=" ++ logStr (pre ++ evs) ++ " ret=" ++ retStr ret
+    else "nomethod"
+
+/-! ### Stacked hooks: WithHook(WithHook(… WithHook(base, h1) …, h_{d-1}), h_d), every hook forwarding
+
+A wrapper of level d+1 keeps the level-d wrapper of the same kind in its `client` field (for
+`dedicated`: behind the `extended` adapter), level 0 is the real client. -/
+
+inductive LK
+  | hooked (t : String)   -- calls hook method t once with the lower level as client, returns its result
+  | passed (t : String)   -- forwards to method t of the lower level
+  | refuses
+  | other
+  deriving DecidableEq, Repr
+
+/-- calling `t` on the client field of `w` reaches method `t` of the lower level -/
+def viaOK (w t : String) : Bool :=
+  match clientFieldType w with
+  | some ty => if ty == "rueidis.Client" then true else adapterCall ty t == ([.inner t], .fromInner)
+  | none => false
+
+/-- what one level of wrapper `w` does with method `m`, read from the table -/
+def levelKind (w m : String) : LK :=
+  match findRow w m with
+  | none => .other
+  | some r =>
+    match r.kind with
+    | .hook => if r.clientArg == "inner" && r.argsFwd && r.retDirect && r.calls == 1 && viaOK w r.target then .hooked r.target else .other
+    | .pass => if r.argsFwd && r.retDirect && r.calls == 1 && viaOK w r.target then .passed r.target else .other
+    | .panics => .refuses
+    | _ => .other
+
+/-- class of the client a hook of level d+1 is handed (as the harness can see it) -/
+def levelClass (w : String) (d : Nat) : String := if d == 0 then clientClass w else "other"
+
+/-- invocation log of method `m` on a depth-`d` stack of wrappers `w` when every hook forwards -/
+def stackCall : Nat → String → String → List Ev
+  | 0, _, m => [.inner m]
+  | d + 1, w, m =>
+    match levelKind w m with
+    | .hooked t => .hookAt (d + 1) t (levelClass w d) :: stackCall d w t
+    | .passed t => stackCall d w t
+    | _ => []
+
+/-- what the property demands of a depth-`d` stack: every level's hook of the same name exactly once,
+    outer to inner, then the real client once -/
+def expectLevels : Nat → String → String → List Ev
+  | 0, _, m => [.inner m]
+  | d + 1, w, m => .hookAt (d + 1) m (levelClass w d) :: expectLevels d w m
+
+def stackAnswer (d : Nat) (path : List String) (m : String) : String :=
+  match follow withHook path [] with
+  | none => "nopath"
+  | some (w, pre) =>
+    if (ifaceOf w).contains m then
+      let ret := match levelKind w m with
+        | .hooked _ => "hook"
+        | .passed _ => "inner"
+        | .refuses => "panic"
+        | .other => "unknown"
+      "log=" ++ logStr (pre ++ stackCall d w m) ++ " ret=" ++ ret
     else "nomethod"
 
 /-! ### Specification side (oracle lines): no reference to the table -/
@@ -177,6 +239,17 @@ def specAnswer (path : List String) (m : String) : String :=
   | some k =>
     let iface := if k == "client" then clientIface else dedicatedIface
     if iface.contains m then "hooks=" ++ m ++ ":1 inner=0 ret=hook" else "nomethod"
+
+/-- stacked hooks, per level: "d:M,…,1:M" in outer-to-inner order, the caller's arguments at every
+    level, the real client once (through the forwarding hooks), the outermost hook's result returned -/
+def specStackAnswer (d : Nat) (path : List String) (m : String) : String :=
+  match specKind "client" path with
+  | none => "nopath"
+  | some k =>
+    let iface := if k == "client" then clientIface else dedicatedIface
+    if iface.contains m then
+      "order=" ++ ",".intercalate ((List.range d).reverse.map fun i => toString (i + 1) ++ ":" ++ m) ++ " args=ok inner=1 ret=hook"
+    else "nomethod"
 
 /-- projection of a model log to the oracle's vocabulary -/
 def hookCount (evs : List Ev) (m : String) : Nat :=
